@@ -133,6 +133,19 @@ func recvCases() []recvCase {
 			}
 		}
 	}
+	// sequences of fragments that share a base sequence number but disagree on FragCount / carry an index beyond it
+	fr := func(seq, idx, cnt uint64) []byte {
+		return lp(append(append(tlvOf(81, natOf8(seq)), tlvOf(82, natOf(idx))...), tlvOf(83, natOf(cnt))...), half)
+	}
+	for _, b := range []uint64{100, 200, 300} {
+		for _, c1 := range []uint64{2, 3} {
+			for _, c2 := range []uint64{1, 2, 4, 9} {
+				for _, idx := range []uint64{1, c1, c1 + 1, c2 - 1} {
+					out = append(out, recvCase{"frag", fr(b, 0, c1)}, recvCase{"frag", fr(b+idx, idx, c2)})
+				}
+			}
+		}
+	}
 	// structure-aware mutants of every valid frame
 	for _, v := range valid {
 		var sp []hspan
